@@ -39,6 +39,8 @@ impl DeviceMap {
 
 impl RequestHandler for RequestHandlerWrapper {
     fn read_coil(&self, address: u16) -> Result<bool, ExceptionCode> {
+        #[cfg(feature = "verif-hooks")]
+        rodbus::verif::sched::point(rodbus::verif::sched::Point::Read(address));
         match self.database.coils.get(&address) {
             Some(x) => Ok(*x),
             None => Err(ExceptionCode::IllegalDataAddress),
@@ -46,6 +48,8 @@ impl RequestHandler for RequestHandlerWrapper {
     }
 
     fn read_discrete_input(&self, address: u16) -> Result<bool, ExceptionCode> {
+        #[cfg(feature = "verif-hooks")]
+        rodbus::verif::sched::point(rodbus::verif::sched::Point::Read(address));
         match self.database.discrete_input.get(&address) {
             Some(x) => Ok(*x),
             None => Err(ExceptionCode::IllegalDataAddress),
@@ -53,6 +57,8 @@ impl RequestHandler for RequestHandlerWrapper {
     }
 
     fn read_holding_register(&self, address: u16) -> Result<u16, ExceptionCode> {
+        #[cfg(feature = "verif-hooks")]
+        rodbus::verif::sched::point(rodbus::verif::sched::Point::Read(address));
         match self.database.holding_registers.get(&address) {
             Some(x) => Ok(*x),
             None => Err(ExceptionCode::IllegalDataAddress),
@@ -60,6 +66,8 @@ impl RequestHandler for RequestHandlerWrapper {
     }
 
     fn read_input_register(&self, address: u16) -> Result<u16, ExceptionCode> {
+        #[cfg(feature = "verif-hooks")]
+        rodbus::verif::sched::point(rodbus::verif::sched::Point::Read(address));
         match self.database.input_registers.get(&address) {
             Some(x) => Ok(*x),
             None => Err(ExceptionCode::IllegalDataAddress),
